@@ -1,22 +1,27 @@
 """C14 — array, module-info and symbol-version tables round-trip.
 
 Proved (Props/C14.lean, about Model/Array.lean, Model/Modinfo.lean, Model/Versym.lean whose guards,
-offsets, truncations and conversions are the generated expressions of Gen/SitesC14.lean):
-  array_add / array_adds / array_get / array_roundtrip / array_bytes : for both entry widths (4, 8;
-      independent of the ELF class) and all 4 configurations, after any sequence of add_entry on any
-      reachable section the content is the concatenation of `encodeInt enc w v` (declared byte order)
-      and get_entry(k) is the k-th added value truncated to the entry width, false beyond the end;
-      the same holds for a section that was loaded (eagerly or lazily) with that content.
-  modinfo_parse / modinfo_roundtrip / modinfo_by_name : the constructor's parser applied to the
-      concatenation of `field=value\\0` records (fields without `=`/NUL, values without NUL) yields exactly
-      the attributes, in order; add_attribute appends such a record; lookup by name = first match.
-  versym_roundtrip : get_entry(k) returns the k-th added index (library-symmetric; holds in all 4
-      configurations).  versym_bytes_partial : stored in declared order when declared order = host order.
-  versym_order_witness / versym_read_witness : F4 — in a big-endian file on this host add_entry(0x0102)
-      stores 02 01, and a well-formed big-endian table is misread.  (open finding, kept in the model)
-  verneed_get_eq_spec / verdef_get_eq_spec : on every image where the GNU-ABI reference decoder
-      (Spec/Tables.lean: follow vn_next/vd_next k times, first auxiliary record, names in the linked string
-      table) succeeds, get_entry reports exactly that, without leaving the section  (after fixes/05).
+offsets, truncations and conversions are the generated expressions of Gen/SitesC14.lean; sections range over
+C07's invariant `SecBuf.Inv`: created+edited, loaded eagerly, loaded lazily):
+  array_add / array_adds / array_get / array_roundtrip / array_bytes / array_get_reloaded : for both entry
+      widths (4, 8; independent of the ELF class) and all 4 configurations, after any sequence of add_entry the
+      content is the old content followed by `encodeInt enc w v` per value (declared byte order), get_entry(k) is
+      the k-th value truncated to the entry width and false for every 64-bit index beyond the end, without
+      leaving the buffer; the same for a section loaded with such content.
+  modinfo_add / modinfo_adds / modinfo_parse / modinfo_roundtrip / modinfo_by_name / modinfo_parse_reloaded :
+      add_attribute appends `field=value\0`; the constructor's parser applied to any such concatenation (fields
+      without `=`/NUL, values without NUL) yields exactly the attributes in order, reading only inside the
+      section; lookup by index = list indexing, by name = first match (Spec.lookupFirst).
+  versym_add / versym_adds / versym_get / versym_roundtrip / versym_get_reloaded : get_entry(k) returns the
+      k-th added index (library-symmetric; holds in all 4 configurations).
+  versym_bytes_partial : stored in the declared order when declared order = host order (needConv = false).
+  versym_order_witness / versym_bytes_declared_order_false / versym_read_witness : F4 - in a big-endian file on
+      this host add_entry(0x0102) stores 02 01, and the well-formed big-endian table 00 05 is read as 0x0500.
+      (open finding `versym-byte-order`, defect kept in the model)
+  verneed_get_eq_spec / verdef_get_eq_spec (+ *_get_absent) : on every image where the GNU-ABI reference
+      reader (Spec/Tables.lean: follow vn_next/vd_next k times, first auxiliary record, names in the linked
+      string table) succeeds, get_entry reports exactly that, in either byte order, without leaving the
+      section (after fixes/05-verneed-verdef-byteorder).
 Only covered by correspondence + oracle (not proved): save/reload (the saved bytes are the section content
 and the loader reads them back — C03/C05's business), the .dynamic lookup of DT_VERNEEDNUM/DT_VERDEFNUM
 (C12), string-table lookup is a local copy of C08's model.
@@ -27,12 +32,12 @@ import itertools, os, struct
 PROPERTY = "C14"
 FAMILY = "c14"
 LEAN_MODULE = "ElfioVerif.Props.C14"
-THEOREMS = ["ElfioVerif.C14.array_add", "ElfioVerif.C14.array_adds", "ElfioVerif.C14.array_get",
-            "ElfioVerif.C14.array_roundtrip", "ElfioVerif.C14.array_bytes",
-            "ElfioVerif.C14.modinfo_parse", "ElfioVerif.C14.modinfo_roundtrip", "ElfioVerif.C14.modinfo_by_name",
-            "ElfioVerif.C14.versym_roundtrip", "ElfioVerif.C14.versym_bytes_partial",
-            "ElfioVerif.C14.versym_order_witness", "ElfioVerif.C14.versym_read_witness",
-            "ElfioVerif.C14.verneed_get_eq_spec", "ElfioVerif.C14.verdef_get_eq_spec"]
+THEOREMS = ["ElfioVerif.C14." + t for t in (
+    "array_add", "array_adds", "array_get", "array_roundtrip", "array_bytes", "array_get_reloaded",
+    "modinfo_add", "modinfo_adds", "modinfo_parse", "modinfo_roundtrip", "modinfo_by_name", "modinfo_parse_reloaded",
+    "versym_add", "versym_adds", "versym_get", "versym_roundtrip", "versym_get_reloaded", "versym_bytes_partial",
+    "versym_order_witness", "versym_bytes_declared_order_false", "versym_read_witness",
+    "verneed_get_eq_spec", "verneed_get_absent", "verdef_get_eq_spec", "verdef_get_absent")]
 SITES = ["arr32_", "arr64_", "mod_", "vs_", "vr_", "vd_", "sec32_insert", "sec64_insert", "sec32_set", "sec64_set"]
 RULE = ("per kind x {ELF32,ELF64} x {LSB,MSB}: arrays (entry width 4 and 8) with 0-40 add_entry of edge/random 64-bit "
         "values, modinfo with 0-20 add_attribute (fields without '='/NUL incl. empty and duplicate names, values without "
